@@ -455,12 +455,15 @@ func sortColumns(ssl []sql.SortSpecification, qfields storage.Fields, rows []*st
 
 			sortAsc := false
 			switch lhs.(type) {
+			case nil:
+				// NULL sorts before every value
+				sortAsc = true
 			case int64:
-				sortAsc = lhs.(int64) < rhs.(int64)
+				sortAsc = rhs != nil && lhs.(int64) < rhs.(int64)
 			case string:
-				sortAsc = strings.Compare(lhs.(string), rhs.(string)) < 0
+				sortAsc = rhs != nil && strings.Compare(lhs.(string), rhs.(string)) < 0
 			case bool:
-				sortAsc = !lhs.(bool) && rhs.(bool)
+				sortAsc = rhs != nil && !lhs.(bool) && rhs.(bool)
 			default:
 				panic(fmt.Sprintf("no comparison available for type %T", lhs))
 			}
